@@ -425,7 +425,8 @@ class InvSim(AoefSim):
             src["spec"] = spec
         described = node.call("describe", src=src)
         if described["outcome"] != "value":
-            raise HarnessError(f"valid world did not build: {described}")
+            self.world_rejected(op, spec, described)
+            return
         self.node_worlds[n].add(key)
         src.pop("spec", None)
         p = op["path"]
@@ -474,6 +475,20 @@ class InvSim(AoefSim):
         self.record(op, "ok", doc=sha(raw))
         self.trace.append(("copy",))
         self.probes.hit("file:copy-by-another-tool")
+
+    def world_rejected(self, op, spec, reply):
+        """A world the reference predicate calls valid could not be built."""
+        broken = arrangement.spec_is_valid(spec)
+        if broken:
+            raise HarnessError(f"generator produced an invalid world: {broken[:3]}")
+        self.record(op, f"raised:{reply.get('exc')}")
+        self.trace.append(("world-rejected", reply.get("exc")))
+        self.violate(
+            "C04",
+            f"C04:rejected-valid:construction:{reply.get('exc')}",
+            f"a world that satisfies every invariant (reference predicate) "
+            f"could not be constructed: {reply.get('msg')}",
+        )
 
     # -- storage faults between save and load
 
@@ -636,6 +651,26 @@ class InvSim(AoefSim):
         if op.get("base_spec") is not None:
             self.probes.hit("C04:arrangement-reached-by-in-place-edit")
         if reply["outcome"] != "value":
+            if reply.get("base") and op.get("base_spec") is not None:
+                self.world_rejected(op, op["base_spec"], reply)
+                return
+            # everything below the target is valid by construction of the
+            # operator; if the reference agrees, the code under test refused
+            # a valid object
+            others = [
+                b for b in arrangement.spec_is_valid(spec)
+                if not b[1].startswith(target["cls"])
+            ]
+            if not others:
+                self.record(op, f"raised:{reply.get('exc')}")
+                self.violate(
+                    "C04",
+                    f"C04:rejected-valid:construction:{reply.get('exc')}",
+                    f"objects below the arrangement's target, all valid by "
+                    f"the reference predicate, could not be constructed: "
+                    f"{reply.get('msg')}",
+                )
+                return
             raise HarnessError(f"arrangement substrate failed: {reply}")
         verdicts = {k: v["verdict"] for k, v in reply["paths"].items()}
         self.record(op, jdump(verdicts), want=want,
